@@ -63,14 +63,30 @@ func c11Run(c *fw.Ctx) {
 	defer envs.close()
 	dirAnswers := []string{"in-listed-group", "in-no-group", "directory-error", "in-group-named-with-listed-name-as-prefix", "in-group-whose-name-is-a-prefix-of-listed", "directory-unavailable-503", "directory-rate-limited-429"}
 
+	varAddr, varDom, varGrp, emails := c11Variants, c11Variants, c11Variants, c11Emails
+	if c.Thorough() {
+		caseVaried := c11RuleVariant{"listed-case-varied", func(l string) []string { return []string{strings.ToUpper(l)} }}
+		second := c11RuleVariant{"other+listed", func(l string) []string { return []string{"zzz-other.test", l} }}
+		varAddr = append(append([]c11RuleVariant{}, c11Variants...), caseVaried, second)
+		varDom = append(append([]c11RuleVariant{}, c11Variants...), caseVaried, second)
+		varGrp = append(append([]c11RuleVariant{}, c11Variants...), second)
+		emails = append(append([]c11Email{}, c11Emails...),
+			c11Email{"", "empty-email", false},
+			c11Email{" alice@allowed.test", "leading-space", true},
+			c11Email{"alice@allowed.test ", "trailing-space", true},
+			c11Email{"Bob@Sub.Corp.Test", "subdomain-case-varied", false},
+			c11Email{"corp.test", "bare-listed-domain-as-email", false},
+			c11Email{"alice@allowed.test@corp.test.evil.test", "listed-address-as-local-part", true})
+	}
+
 	drive(c, "stages", -1, func(x *explore.Exec, owned bool) {
-		va, vd, vg := x.Choose("addr-rule", 4), x.Choose("dom-rule", 4), x.Choose("grp-rule", 4)
+		va, vd, vg := x.Choose("addr-rule", len(varAddr)), x.Choose("dom-rule", len(varDom)), x.Choose("grp-rule", len(varGrp))
 		if va == 0 && vd == 0 && vg == 0 {
 			return // no rule at all is a configuration error (C14), not a policy
 		}
-		p := policy{Name: fmt.Sprintf("addr=%s,dom=%s,grp=%s", c11Variants[va].Name, c11Variants[vd].Name, c11Variants[vg].Name),
-			Addrs: c11Variants[va].Vals("alice@allowed.test"), Doms: c11Variants[vd].Vals("corp.test"), Groups: c11Variants[vg].Vals("eng")}
-		em := c11Emails[x.Choose("email", len(c11Emails))]
+		p := policy{Name: fmt.Sprintf("addr=%s,dom=%s,grp=%s", varAddr[va].Name, varDom[vd].Name, varGrp[vg].Name),
+			Addrs: varAddr[va].Vals("alice@allowed.test"), Doms: varDom[vd].Vals("corp.test"), Groups: varGrp[vg].Vals("eng")}
+		em := emails[x.Choose("email", len(emails))]
 		dir := dirAnswers[x.Choose("directory", len(dirAnswers))]
 		if len(envs.m) > 6 {
 			envs.close()
@@ -105,6 +121,8 @@ func c11Run(c *fw.Ctx) {
 				a = profile()
 			case "validate":
 				a = ans(200, "{}")
+			case "refresh":
+				a = ans(201, `{"access_token":"at2","expires_in":3600}`)
 			}
 			cl.Answer = describeAnswer(a)
 			return a
@@ -121,6 +139,9 @@ func c11Run(c *fw.Ctx) {
 		r2 := e.Do(harness.NewRequest("GET", "/oauth2/callback?code=c&state="+url.QueryEscape(u.Query().Get("state")), hostA, hdr, nil))
 		sc := r2.Cookie(harness.CookieName)
 		verdict := []string{"refused", "-", "-"}
+		if c.Thorough() {
+			verdict = append(verdict, "-")
+		}
 		if r2.Status == 302 && sc != nil && sc.Value != "" {
 			verdict[0] = "admitted"
 			// stage 2: a request while no check is due
@@ -138,6 +159,17 @@ func c11Run(c *fw.Ctx) {
 				h3 := http.Header{"Cookie": {harness.CookieName + "=" + raw}}
 				r4 := e.Do(harness.NewRequest("GET", "/private", hostA, h3, nil))
 				verdict[2] = served(r4)
+				if nc := r4.Cookie(harness.CookieName); nc != nil {
+					raw = nc.Value
+				}
+				// stage 4 (thorough): a request after the access token ran out (refreshed through the authenticator)
+				if len(verdict) > 3 {
+					if raw != "" && verdict[2] == "admitted" {
+						setNow(3700)
+						r5 := e.Do(harness.NewRequest("GET", "/private", hostA, http.Header{"Cookie": {harness.CookieName + "=" + raw}}, nil))
+						verdict[3] = served(r5)
+					} // else: already refused at an earlier stage — nothing new to judge
+				}
 			} else {
 				verdict[2] = "refused"
 			}
@@ -153,15 +185,15 @@ func c11Run(c *fw.Ctx) {
 		want := ruleAdmits(p, em.Email, facts)
 		sat := satisfied(p, em.Email, facts)
 		desc := map[string]interface{}{"rules": p, "email": em.Email, "email_class": em.Class, "directory": dir, "satisfied_rules": sat,
-			"reference_admits": want, "verdict_login": verdict[0], "verdict_next_request": verdict[1], "verdict_after_validity_ttl": verdict[2]}
+			"reference_admits": want, "verdict_login": verdict[0], "verdict_next_request": verdict[1], "verdict_after_validity_ttl": verdict[2], "verdicts": verdict}
 		wantS := map[bool]string{true: "admitted", false: "refused"}[want]
-		stages := []string{"login", "next-request", "after-validity-ttl"}
+		stages := []string{"login", "next-request", "after-validity-ttl", "after-token-refresh"}
 		nontrivial := false
 		for i, v := range verdict {
 			if v == "-" {
 				continue
 			}
-			if i == 2 && strings.HasPrefix(dir, "directory-") && len(p.Groups) > 0 && !(len(p.Groups) == 1 && p.Groups[0] == "*") {
+			if i >= 2 && strings.HasPrefix(dir, "directory-") && len(p.Groups) > 0 && !(len(p.Groups) == 1 && p.Groups[0] == "*") {
 				continue // a revalidation that cannot confirm membership refuses (C04); not a rule verdict
 			}
 			if i > 0 && verdict[0] == "admitted" {
@@ -171,7 +203,7 @@ func c11Run(c *fw.Ctx) {
 				if v != verdict[0] {
 					key := fmt.Sprintf("C11/inconsistent/%s/%s", p.Name, em.Class)
 					if verdict[0] == "admitted" && i > 0 {
-						if un := unsatisfied(p, em.Email, facts, i == 2); un != "none" {
+						if un := unsatisfied(p, em.Email, facts, i >= 2); un != "none" {
 							key = fmt.Sprintf("C11/all-of-after-login/%s/unsatisfied=%s", stages[i], un)
 						}
 					}
@@ -185,7 +217,7 @@ func c11Run(c *fw.Ctx) {
 				if want && verdict[0] == "admitted" && i > 0 {
 					// admitted at login (as documented) but refused later: name the configured rules the user
 					// does NOT satisfy — the later stages demand all of them instead of any one
-					key = fmt.Sprintf("C11/all-of-after-login/%s/unsatisfied=%s", stages[i], unsatisfied(p, em.Email, facts, i == 2))
+					key = fmt.Sprintf("C11/all-of-after-login/%s/unsatisfied=%s", stages[i], unsatisfied(p, em.Email, facts, i >= 2))
 				}
 				c.Res.Violate(fw.Violation{Property: "C11", Key: key,
 					What: fmt.Sprintf("rules {%s}, email %q (%s), directory %s: satisfies {%s} so the documented any-of verdict is %s, but %s: %s",
@@ -254,6 +286,7 @@ func init() {
 		ID:    "C11",
 		Level: "exploration",
 		Rule: "full product on a proxy built like cmd/sso-proxy (validators exactly as proxy.New builds them): rule sets = every combination of {absent, listed value, lone *, * with another value} for addresses, domains and groups (63 policies) x 16 emails (exact, case-varied, prefix/suffix look-alikes, plus-tagged and dotted variants of a listed address, look-alike domain, sub-domain, domain as prefix, unlisted, two @, empty local part, non-ASCII local part / domain) x directory {in listed group, in none, error 500, unavailable 503, rate-limited 429, only in groups whose names extend a listed name, only in groups whose names are prefixes of a listed name}; " +
+			"thorough adds rule variants {listed value in upper case, another value + the listed one}, emails {empty, leading/trailing space, case-varied sub-domain, the bare listed domain, a listed address used as local part} and a fourth stage after the access token ran out and was refreshed; " +
 			"each case logs in through the real callback, sends a request while no check is due and one after the validity TTL; oracle = the documented any-of semantics and the same verdict at all three stages (emails whose reading the statement leaves open: consistency only); " +
 			"distinct_nontrivial = distinct (rule set, email class, directory, verdict triple) among cases admitted at login",
 		Assumptions:    []string{"a revalidation whose directory lookup fails refuses regardless of the rules (C04), so that stage is not compared when the directory errors"},
